@@ -10,7 +10,7 @@ from dsim import refmodel as R
 ENCS = ['utf-8', 'utf-16', 'utf-16-le', 'utf-16-be', 'utf-32', 'utf-32-le',
         'utf-32-be', 'latin-1', 'cp1252', 'iso-8859-15', 'koi8-r', 'cp437',
         'ascii', 'cp037', 'cp500', 'shift_jis', 'euc-jp', 'gbk', 'gb18030',
-        'big5', 'euc-kr', 'utf-8-sig']
+        'big5', 'euc-kr', 'utf-8-sig', 'kz1048']
 ENCS_COMMON = ['utf-8', 'utf-16', 'utf-32', 'latin-1']
 # encodings under which a wrong choice is *visible* for non-ASCII text
 ENCS_VISIBLE = ['utf-8', 'utf-16', 'utf-32-be', 'cp037', 'latin-1',
